@@ -3,6 +3,7 @@ CONSTANTS
   MaxLen = 300
   MaxOps = 40
   Depth = 40
+  Kinds = {"d", "h"}
   HistOn = TRUE
   TableFrom = 1
   TableTo = 0
